@@ -136,7 +136,17 @@ def init_ok(marker):
     w.init_log.append((w.cur.proc.pid, marker))
 
 
+def _note_init_failure():
+    w = _W()
+    p = w.cur.proc
+    p.death = {"pid": p.pid, "cause": 0, "injected": False, "by": "initializer", "step": w.steps,
+               "where": ["initializer"], "spawn_index": p.spawn_index, "partial_msg": None, "sems_held": []}
+    if w.on_death is not None:
+        w.on_death(p)
+
+
 def init_raise():
+    _note_init_failure()
     raise ValueError("initializer fails")
 
 
@@ -144,6 +154,7 @@ def init_raise_on(ks, marker):
     w = _W()
     w.sched_point()
     if w.cur.proc.spawn_index in ks:
+        _note_init_failure()
         raise ValueError("initializer fails on this spawn")
     w.cur.proc.marker = marker
     w.init_log.append((w.cur.proc.pid, marker))
